@@ -115,30 +115,44 @@ def structural(ctx, rng, count, nsett):
     return [m for m in meta if m[3] == 'F16']
 
 
-def value_under(case, form, settings, covers_mode):
-    """ECOS value of sig_relaxation under the given global settings; covers_mode in {'auto','full'}"""
+def value_under(case, form, settings, covers_mode, via='global'):
+    """ECOS value of the level-0 relaxation under the given settings.
+    covers_mode: 'auto' (sig_relaxation itself), 'hand' (the same problem built by hand from the public constraint classes, automatic
+    covers), 'full' (by hand, full covers), 'fullT' (by hand, full covers written as all-True arrays: the documented correction of
+    covers[i][i] applies).
+    via: 'global' (the settings are the global defaults) or 'override' (the global defaults are the OPPOSITE of every boolean option
+    and the settings are handed to the constraint itself; needs a hand-built problem)"""
     import sageopt as so
     import sageopt.coniclifts as cl
-    old = set_global(settings)
+    if via == 'override':
+        old = set_global({k: (not v) for k, v in settings.items() if isinstance(v, bool)})
+        kw = {'settings': dict(settings)}
+        if covers_mode == 'auto':
+            covers_mode = 'hand'
+    else:
+        old = set_global(settings)
+        kw = {}
     try:
         f = st.build(case['f'])
         X = rm.build_sig_domain(case['f']['n'], case['box'])
         if covers_mode == 'auto':
             prob = so.sig_relaxation(f, X=X, form=form)
         else:
-            # the same problem with full covers, built by hand from the public constraint classes
             m = f.m
-            covers = {i: np.array([j != i for j in range(m)]) for i in range(m)}
+            if covers_mode == 'full':
+                kw['covers'] = {i: np.array([j != i for j in range(m)]) for i in range(m)}
+            elif covers_mode == 'fullT':
+                kw['covers'] = {i: np.ones(m, dtype=bool) for i in range(m)}
             if form == 'primal':
                 gamma = cl.Variable(name='gamma')
                 L = f - gamma
-                con = cl.PrimalSageCone(L.c, L.alpha, X, 'full', covers=covers)
+                con = cl.PrimalSageCone(L.c, L.alpha, X, 'full', **kw)
                 prob = cl.Problem(cl.MAX, gamma, [con])
             else:
                 gamma = cl.Variable(name='gamma')
                 L = f - gamma
                 v = cl.Variable(shape=(L.m, 1), name='v')
-                con = cl.DualSageCone(v, L.alpha, X, 'full', c=L.c, covers=covers)
+                con = cl.DualSageCone(v, L.alpha, X, 'full', c=L.c, **kw)
                 from sageopt.relaxations import symbolic_correspondences as sc2
                 a = sc2.relative_coeff_vector(f.upcast_to_signomial(1), L.alpha).reshape(-1, 1)
                 o = sc2.relative_coeff_vector(f, L.alpha).reshape(-1, 1)
@@ -214,6 +228,19 @@ def audit(ctx, rng, count, nsett):
                                   % (form, vf, {k: s[k] for k in s if s[k] != sm.DEFAULTS[k]}, ref[1]),
                                   {'stream': 'audit', 'case': case, 'form': form, 'settings': s, 'covers': 'full'})
                     continue
+                # one more way of saying the same thing, rotating: full covers written as all-True arrays, and / or the settings
+                # handed to the constraint itself while the global defaults say the opposite
+                cm, via = [('fullT', 'global'), ('full', 'override'), ('fullT', 'override'), ('hand', 'override'), ('hand', 'global')][rng.randrange(5)]
+                stx, vx = value_under(case, form, s, cm, via)
+                ctx.count('audit:variant:%s/%s' % (cm, via))
+                if stx.startswith('raised') or (stx == 'solved' and not same(vx, ref[1])):
+                    ctx.violation('options: ordinary SAGE %s problem with covers=%s and the options %s given as %s: %s, the reference settings give %.8g'
+                                  % (form, {'fullT': 'full (all-True arrays)', 'full': 'full', 'hand': 'automatic'}[cm],
+                                     {k: s[k] for k in s if s[k] != sm.DEFAULTS[k]},
+                                     'per-constraint settings (global defaults: the opposite)' if via == 'override' else 'global defaults',
+                                     stx[7:] if stx.startswith('raised') else 'value %.8g' % vx, ref[1]),
+                                  {'stream': 'audit', 'case': case, 'form': form, 'settings': s, 'covers': cm, 'via': via})
+                    continue
                 if not same(v, ref[1]):
                     tag = []
                     if s['sum_age_force_equality'] and form == 'primal' and v == -math.inf:
@@ -222,6 +249,17 @@ def audit(ctx, rng, count, nsett):
                                   % (form, v, {k: s[k] for k in s if s[k] != sm.DEFAULTS[k]}, ref[1]),
                                   {'stream': 'audit', 'case': case, 'form': form, 'settings': s}, tags=tag)
             else:
+                # the options handed to the constraint itself (global defaults: the opposite) mean what the global defaults mean
+                if rng.random() < 0.35:
+                    sto, vo = value_under(case, form, s, 'hand', 'override')
+                    ctx.count('audit:variant:hand/override:conditional')
+                    if sto.startswith('raised') or (sto == 'solved' and not same(vo, v)):
+                        ctx.violation('options: conditional SAGE %s problem with the options %s given as per-constraint settings (global '
+                                      'defaults: the opposite): %s; the same options as global defaults give %.8g'
+                                      % (form, {k: s[k] for k in s if s[k] != sm.DEFAULTS[k]},
+                                         sto[7:] if sto.startswith('raised') else 'value %.8g' % vo, v),
+                                      {'stream': 'audit', 'case': case, 'form': form, 'settings': s, 'covers': 'hand', 'via': 'override'})
+                        continue
                 exact = not s['heuristic_reduction'] and not s['presolve_trivial_age_cones']
                 if exact and not same(v, ref[1]):
                     tag = ['F7-force-equality-uncovered'] if (s['sum_age_force_equality'] and form == 'primal' and v == -math.inf) else []
@@ -333,6 +371,6 @@ def replay(obj):
     print('what:', obj['what'])
     r = obj['replay']
     if 'case' in r and 'settings' in r:
-        print('under the settings:', value_under(r['case'], r['form'], r['settings'], r.get('covers', 'auto')))
+        print('under the settings:', value_under(r['case'], r['form'], r['settings'], r.get('covers', 'auto'), r.get('via', 'global')))
         print('reference:', value_under(r['case'], r['form'], dict(sm.DEFAULTS, heuristic_reduction=False), 'auto'))
     return 1
